@@ -1,14 +1,14 @@
-//! arena_driver: drives the real `bumpalo::Bump` (built from /repo's working
-//! tree with `--cfg bumpalo_verif`) through generated operation histories and
-//! writes one self-contained trace per history.  See DESIGN.md §3.1/§11.
-//!
-//!   arena_driver gen   <seed> <count> [maxops]     random histories
-//!   arena_driver consts                            the crate's constants
-//!
-//! Every random choice derives from the seed; traces go to stdout, one line
-//! per operation, flushed line by line (a hang or crash leaves the `B` line of
-//! the operation that did not come back).
-#![allow(clippy::all)]
+// arena_driver: drives the real `bumpalo::Bump` (built from /repo's working
+// tree with `--cfg bumpalo_verif`) through generated operation histories and
+// writes one self-contained trace per history.  See DESIGN.md §3.1/§11.
+//
+//   arena_driver gen   <seed> <count> [maxops]     random histories
+//   arena_driver consts                            the crate's constants
+//
+// Every random choice derives from the seed; traces go to stdout, one line
+// per operation, flushed line by line (a hang or crash leaves the `B` line of
+// the operation that did not come back).
+
 use allocator_api2::alloc::Allocator;
 use bumpalo::Bump;
 use bv_harness::rng::Rng;
@@ -733,6 +733,7 @@ impl<const M: usize> Drv<M> {
                 let bump: *const Bump<M> = self.bump.as_ref().unwrap();
                 let mut entered = false;
                 let mut p_at_entry = 0usize;
+                let mut inner_ops = 0usize;
                 let f = || -> Result<$t, $e> {
                     track::paused(|| {
                         let me = unsafe { &mut *me };
@@ -744,10 +745,12 @@ impl<const M: usize> Drv<M> {
                         let me = unsafe { &mut *me };
                         track::paused(|| ());
                         let was = track::set_active(false);
+                        let before = me.nops;
                         me.inner_actions();
                         if nested {
                             me.op_try_with(depth + 1);
                         }
+                        inner_ops = me.nops - before;
                         me.begin(&format!("twend {}", ok as u8));
                         track::set_active(was);
                     }
@@ -784,6 +787,24 @@ impl<const M: usize> Drv<M> {
                             self.line("K bad error value not handed back intact");
                         }
                         self.end(&desc2, &Res::Err);
+                        if inner_ops == 0 && depth == 0 {
+                            // C11: the initialiser allocated nothing, so the same layout must now be
+                            // served without asking the global allocator
+                            let d = format!("alloc {} {} 1 probe_c11", lay.size(), lay.align());
+                            self.begin(&d);
+                            let b = self.bump.as_ref().unwrap();
+                            let r = guarded(|| b.try_alloc_layout(lay).map(|p| p.as_ptr() as usize).map_err(|_| ()));
+                            let out = match r {
+                                Ok(Ok(a)) => {
+                                    let exp = pattern(&mut self.rng, lay.size());
+                                    unsafe { write_bytes(a, &exp) };
+                                    Ok((a, lay.size(), lay.align(), exp))
+                                }
+                                Ok(Err(())) => Err(Res::Err),
+                                Err(p) => Err(p),
+                            };
+                            self.record_alloc(&d, out);
+                        }
                     }
                     Ok(Err(None)) => {
                         if entered { self.line("K bad allocation error after the initialiser ran"); }
@@ -1015,6 +1036,27 @@ fn run_history<const M: usize>(plan: &Plan) {
     d.line("E");
 }
 
+/// with_min_align & friends for supported and unsupported MIN_ALIGN values:
+/// one `T` line each (did it panic, how many chunk requests were made)
+fn ctor_tests() {
+    fn one<const M: usize>() {
+        let c = bumpalo::verif_hooks::consts();
+        for (how, cap) in [(0usize, 0usize), (1, 0), (1, 100), (2, 0), (2, 100)] {
+            track::reset_log();
+            let r = guarded(|| match how {
+                0 => drop(Bump::<M>::with_min_align()),
+                1 => drop(Bump::<M>::with_min_align_and_capacity(cap)),
+                _ => drop(Bump::<M>::try_with_min_align_and_capacity(cap)),
+            });
+            let reqs = track::events(0, track::log_len()).iter().filter(|e| e.kind == Kind::Alloc).count();
+            let res = match r { Ok(()) => "ok".to_string(), Err(p) => p.show() };
+            println!("T malign={} how={} cap={} res={} reqs={} consts={},{},{},{},{},{},{}", M, how, cap, res, reqs, c[0], c[1], c[2], c[3], c[4], c[5], c[6]);
+        }
+    }
+    one::<0>(); one::<1>(); one::<2>(); one::<3>(); one::<4>(); one::<5>(); one::<6>(); one::<7>(); one::<8>();
+    one::<12>(); one::<16>(); one::<17>(); one::<24>(); one::<32>(); one::<64>(); one::<4096>();
+}
+
 fn main() {
     std::panic::set_hook(Box::new(|_| {}));
     bumpalo::verif_hooks::set_on_store(Some(on_store));
@@ -1029,6 +1071,9 @@ fn main() {
             let count: u64 = args[3].parse().unwrap();
             let maxops: usize = args.get(4).map(|s| s.parse().unwrap()).unwrap_or(60);
             let first: u64 = args.get(5).map(|s| s.parse().unwrap()).unwrap_or(0);
+            if first == 0 {
+                ctor_tests();
+            }
             for hid in first..first + count {
                 let plan = Plan { seed, hid, maxops };
                 let mut r = Rng::new(seed ^ hid.wrapping_mul(0x2545F4914F6CDD1D));
